@@ -335,6 +335,10 @@ pub fn space(thorough: bool) -> Vec<Prog> {
     for p in crate::c03::space_c(false) {
         out.push(Prog { key: format!("placed|{}", p.key), src: p.src, groups: 1 });
     }
+    // call graphs (<= 2 helpers quick, <= 3 thorough): several entries of different stages sharing helpers
+    for p in crate::c03::space_a_k(thorough, if thorough { 3 } else { 2 }) {
+        out.push(Prog { key: format!("graph|{}", p.key), src: p.src, groups: 1 });
+    }
     out
 }
 
